@@ -53,12 +53,21 @@ var vStoreDocs = []vDoc{
 	{Vec: []float32{3, 4}, Text: "gamma alpha", Meta: map[string]interface{}{"s": "x"}},
 }
 
+// vStoreSpellings: when set, session k names the store directory vStoreSpellings[(k-1) % n] -
+// different path strings for ONE directory (an alias, an unclean path). A directory is the
+// same store however a session spells its path.
+var vStoreSpellings []string
+
 // vStoreSessionNo: the number (1, 2, ...) of the session the next config() is for.
 var vStoreSessionNo = 1
 
 // config builds a StorageConfig with FRESH template index objects.
 func (c vStoreCfg) config() *StorageConfig {
-	sc := DefaultStorageConfig(vStoreDir)
+	dir := vStoreDir
+	if len(vStoreSpellings) > 0 {
+		dir = vStoreSpellings[(vStoreSessionNo-1)%len(vStoreSpellings)]
+	}
+	sc := DefaultStorageConfig(dir)
 	switch c.Mem {
 	case 0:
 		sc.MemtableSizeLimit = 200
@@ -388,6 +397,9 @@ func vIDSet(m map[uint32]float64) []uint32 {
 
 // C16 (3) store shards are provided by zz_verif_c10.go (set in its init).
 var vC16StoreShards func(tier string) []vShard
+
+// C18's scheduler scenario (S19), provided by zz_verif_c11.go
+var vC18SchedShards = func(tier string) []vShard { return vSchedShards("C18", tier) }
 var vC16StoreReplay func(c *vCtx, v *vViolation) bool
 
 // vCanonStoreLight: like vCanonStore but with the file system summarised by the
